@@ -21,5 +21,5 @@ for id in "$@"; do
   echo "{\"head\":\"$(git -C /repo rev-parse --short HEAD)\",\"patch\":\"$(basename $patch)\",\"apply\":\"$ap\",\"build\":\"$bd\",\"suite\":\"$st\",\"demo_patched\":\"$dq\",\"demo_pristine\":\"$dp\"}" > $src/verify_head.json
   echo "$id $(cat $src/verify_head.json)"
   git -C /repo worktree remove --force $wt
-  rm -f /tmp/vh_$id.*.log
+  [ "$st" = "0" ] && rm -f /tmp/vh_$id.*.log
 done
